@@ -24,6 +24,9 @@ type tracerObj struct{}
 type mutexState struct {
 	writer  bool
 	readers int
+	// writersWaiting: blocked Lock calls. Go's RWMutex lets a pending writer exclude NEW readers
+	// (so a recursive RLock deadlocks when a writer arrives in between).
+	writersWaiting int
 	relVC   vclock // released by the last writer unlock (and WaitGroup.Done / Once)
 	readVC  vclock // released by reader unlocks
 }
@@ -649,7 +652,9 @@ func BaseIntrinsics() map[string]IntrinsicFn {
 	lock := func(ex *Exec, fr *frame, a []Value) Value {
 		ms := ex.mutexOf(a[0])
 		ex.preemptPoint(fr)
+		ms.writersWaiting++
 		ex.block("mutex Lock at "+ex.posOf(fr), func() bool { return !ms.writer && ms.readers == 0 })
+		ms.writersWaiting--
 		ms.writer = true
 		ex.acquireVC(ms.relVC)
 		ex.acquireVC(ms.readVC)
@@ -672,7 +677,7 @@ func BaseIntrinsics() map[string]IntrinsicFn {
 	m["(*sync.RWMutex).RLock"] = func(ex *Exec, fr *frame, a []Value) Value {
 		ms := ex.mutexOf(a[0])
 		ex.preemptPoint(fr)
-		ex.block("mutex RLock at "+ex.posOf(fr), func() bool { return !ms.writer })
+		ex.block("mutex RLock at "+ex.posOf(fr), func() bool { return !ms.writer && ms.writersWaiting == 0 })
 		ms.readers++
 		ex.acquireVC(ms.relVC)
 		return nil
